@@ -92,7 +92,32 @@ func C13(p *core.Prog, r *core.Report) {
 		r.Und("INT-1", "cache.Header|anchor", "-", "anchor-unresolved: struct cache.Header not found")
 		return
 	}
-	role := c.validate(hf)
+	// Validate is decided on the program as inlined and, if that leaves a problem and helpers were
+	// inlined, on the program before inlining: a comparison helper (`sameSum(a, b)`) is recognisable as a
+	// call, its body spread over Validate is not. Both are the same program.
+	var role map[int]*types.Var
+	trial := core.NewReport(r.Property)
+	(&ctx{p, trial, c.info}).validate(hf)
+	problems := false
+	for _, o := range trial.Obs {
+		if o.Status == core.Violation || o.Status == core.Undecided {
+			problems = true
+		}
+	}
+	if problems && p.Pre != nil {
+		hfPre := headerFields(p.Pre)
+		rolePre := (&ctx{p.Pre, r, p.Pre.Info(core.PkgCache)}).validate(hfPre)
+		role = map[int]*types.Var{}
+		for i, f := range rolePre {
+			for _, g := range hf {
+				if f != nil && g.Name() == f.Name() {
+					role[i] = g
+				}
+			}
+		}
+	} else {
+		role = c.validate(hf)
+	}
 	c.open(hf, role)
 	c.readHeader(hf)
 	c.names()
@@ -161,6 +186,8 @@ func (c *ctx) validate(hf []*types.Var) map[int]*types.Var {
 		switch x := n.(type) {
 		case *ast.CallExpr:
 			if core.IsCallTo(info, x, "bytes.Equal") && len(x.Args) == 2 {
+				note(x, x.Args[0], x.Args[1], false)
+			} else if len(x.Args) == 2 && isSliceEqual(p, info, x) {
 				note(x, x.Args[0], x.Args[1], false)
 			}
 		case *ast.BinaryExpr:
@@ -1143,4 +1170,91 @@ func (c *ctx) passthrough() {
 			r.Bad("INT-9", fn+"|passthrough", p.Pos(fd.Pos()), "the caller's buffer is not passed unchanged to f."+w.field+" with its result returned")
 		}
 	}
+}
+
+// isSliceEqual: the call is to a function of the cache package that is byte-slice
+// equality written out, in exactly this shape (after normalisation):
+//
+//	if len(a) != len(b) { return false }
+//	for i := range a { if a[i] != b[i] { return false } }
+//	return true
+//
+// Any other hand-written comparison (a prefix, the last byte, a checksum) is not
+// accepted; the rule then reports the field as never compared.
+func isSliceEqual(p *core.Prog, info *types.Info, call *ast.CallExpr) bool {
+	fn := core.Callee(info, call)
+	if fn == nil || fn.Pkg() == nil || fn.Pkg().Path() != core.PkgCache {
+		return false
+	}
+	fd := p.FuncDecl(core.PkgCache, fn.Name())
+	if fd == nil || fd.Body == nil || fd.Recv != nil || len(fd.Body.List) != 3 {
+		return false
+	}
+	ps := params(info, fd)
+	if len(ps) != 2 {
+		return false
+	}
+	isP := func(e ast.Expr, k int) bool { return core.ObjOf(info, e) == ps[k] }
+	isFalse := func(st ast.Stmt, want string) bool {
+		rs, ok := st.(*ast.ReturnStmt)
+		if !ok || len(rs.Results) != 1 {
+			return false
+		}
+		tv, ok := info.Types[rs.Results[0]]
+		return ok && tv.Value != nil && tv.Value.String() == want
+	}
+	// 1: lengths differ -> false
+	is1, ok := fd.Body.List[0].(*ast.IfStmt)
+	if !ok || is1.Init != nil || is1.Else != nil || len(is1.Body.List) != 1 || !isFalse(is1.Body.List[0], "false") {
+		return false
+	}
+	be, ok := ast.Unparen(is1.Cond).(*ast.BinaryExpr)
+	if !ok || be.Op != token.NEQ {
+		return false
+	}
+	lenOf := func(e ast.Expr) int {
+		c, ok := ast.Unparen(e).(*ast.CallExpr)
+		if !ok || !core.IsBuiltin(info, c, "len") || len(c.Args) != 1 {
+			return -1
+		}
+		for k := range ps {
+			if isP(c.Args[0], k) {
+				return k
+			}
+		}
+		return -1
+	}
+	if l, r := lenOf(be.X), lenOf(be.Y); l < 0 || r < 0 || l == r {
+		return false
+	}
+	// 2: some element differs -> false
+	rs, ok := fd.Body.List[1].(*ast.RangeStmt)
+	if !ok || rs.Key == nil || rs.Value != nil || len(rs.Body.List) != 1 || !(isP(rs.X, 0) || isP(rs.X, 1)) {
+		return false
+	}
+	is2, ok := rs.Body.List[0].(*ast.IfStmt)
+	if !ok || is2.Init != nil || is2.Else != nil || len(is2.Body.List) != 1 || !isFalse(is2.Body.List[0], "false") {
+		return false
+	}
+	ne, ok := ast.Unparen(is2.Cond).(*ast.BinaryExpr)
+	if !ok || ne.Op != token.NEQ {
+		return false
+	}
+	elemOf := func(e ast.Expr) int {
+		ix, ok := ast.Unparen(e).(*ast.IndexExpr)
+		if !ok || core.ObjOf(info, ix.Index) != core.ObjOf(info, rs.Key) {
+			return -1
+		}
+		for k := range ps {
+			if isP(ix.X, k) {
+				return k
+			}
+		}
+		return -1
+	}
+	if l, r := elemOf(ne.X), elemOf(ne.Y); l < 0 || r < 0 || l == r {
+		return false
+	}
+	// 3: otherwise equal
+	return isFalse(fd.Body.List[2], "true")
 }
